@@ -57,9 +57,10 @@ def transforming(g: VGen) -> dict:
 def _gen_case(g: VGen, opts: dict) -> dict:
     r = g.rng
     g.reset()
-    g.async_rate = 0.0
-    g.user_rate = 0.1
     is_async = r.random() < 0.45
+    # a coroutine function's validators may have async-only checks (they are awaited); they suspend once or twice
+    g.async_rate = 0.15 if is_async else 0.0
+    g.user_rate = 0.1
     params: List[dict] = []
 
     def mk(name: str, kind: str) -> dict:
@@ -113,6 +114,23 @@ def _gen_case(g: VGen, opts: dict) -> dict:
             return p["av"]
         return None
     # ---- a legal call shape
+    pos = [p for p in params if p["kind"] in ("posOnly", "posOrKw")]
+    args, kwargs, legal = _gen_call(g, params, eff)
+    # a second, independent call of the same function: the two are also made concurrently (coroutine functions)
+    args2, kwargs2, legal2 = _gen_call(g, params, eff)
+    for d in props.find_all([p.get("av") for p in params] + [p.get("ov") for p in params] + [ret.get("av"), ret.get("ov")], []):
+        for ap in (d.get("apreds") or []) if isinstance(d, dict) else []:
+            ap["yields"] = r.choice([1, 2])
+    # ---- the body
+    rv = eff(ret) if (ret["annotated"] or ret["overridden"]) else None
+    body: Dict[str, Any] = {"exc": g.cb()} if r.random() < 0.15 else {"ret": value_for(g, rv)}
+    return {"params": params, "ret": ret, "extra_ignored": extra_ignored, "async": is_async, "args": args,
+            "kwargs": kwargs, "body": body, "classes": g.classes, "legal": legal, "real_def": r.random() < 0.3,
+            "args2": args2, "kwargs2": kwargs2, "legal2": legal2}
+
+
+def _gen_call(g: VGen, params: List[dict], eff: Any) -> Tuple[List[dict], List[list], bool]:
+    r = g.rng
     args: List[dict] = []
     kwargs: List[list] = []
     pos = [p for p in params if p["kind"] in ("posOnly", "posOrKw")]
@@ -150,11 +168,7 @@ def _gen_case(g: VGen, opts: dict) -> dict:
             if not any(k[0] == name for k in kwargs):
                 kwargs.append([name, value_for(g, eff(vk[0]))])
     r.shuffle(kwargs)
-    # ---- the body
-    rv = eff(ret) if (ret["annotated"] or ret["overridden"]) else None
-    body: Dict[str, Any] = {"exc": g.cb()} if r.random() < 0.15 else {"ret": value_for(g, rv)}
-    return {"params": params, "ret": ret, "extra_ignored": extra_ignored, "async": is_async, "args": args,
-            "kwargs": kwargs, "body": body, "classes": g.classes, "legal": legal, "real_def": r.random() < 0.3}
+    return args, kwargs, legal
 
 
 def value_for(g: VGen, v: Optional[dict]) -> dict:
@@ -192,7 +206,8 @@ def make_function(ctx: wire.Ctx, case: dict, rec: List[Any]) -> Tuple[Any, Dict[
         ann: Any = inspect.Parameter.empty
         if p["annotated"]:
             av = build.mk_validator(ctx, p["av"], [])
-            ann = typing.Annotated[Any, av]
+            # (a validator among the metadata is honoured wherever it stands)
+            ann = typing.Annotated[Any, "doc", av] if p["av"].get("vid", 1) % 3 == 0 else typing.Annotated[Any, av]
             vals[p["name"]] = av
         if p["overridden"]:
             ov = build.mk_validator(ctx, p["ov"], [])
@@ -207,7 +222,7 @@ def make_function(ctx: wire.Ctx, case: dict, rec: List[Any]) -> Tuple[Any, Dict[
     rann: Any = inspect.Signature.empty
     if ret["annotated"]:
         rv = build.mk_validator(ctx, ret["av"], [])
-        rann = typing.Annotated[Any, rv]
+        rann = typing.Annotated[Any, "doc", rv] if ret["av"].get("vid", 1) % 3 == 0 else typing.Annotated[Any, rv]
         if ret["av"]["k"] == "none" and not ret["av"].get("coerce") and ret["av"]["vid"] % 2 == 0:
             rann = None      # the annotation a function returning nothing actually carries
         vals["->"] = rv
@@ -283,6 +298,38 @@ def make_function(ctx: wire.Ctx, case: dict, rec: List[Any]) -> Tuple[Any, Dict[
     return (f, wrapped), vals
 
 
+def concurrent_calls(ctx: wire.Ctx, case: dict, wrapped: Any, args: List[Any], kwargs: Dict[str, Any]) -> List[str]:
+    """two calls of one decorated coroutine function in flight at the same time each end as they end alone"""
+    import asyncio
+    from koda_validate.signature import InvalidArgsError, InvalidReturnError
+    args2 = [wire.mk_value(ctx, a) for a in case["args2"]]
+    kwargs2 = {k: wire.mk_value(ctx, v) for k, v in case["kwargs2"]}
+
+    async def classify(a: List[Any], k: Dict[str, Any]) -> Any:
+        try:
+            await wrapped(*a, **k)
+            return ("returned",)
+        except InvalidArgsError as e:
+            return ("invalidArgs", tuple(sorted(e.errs.keys())))
+        except InvalidReturnError:
+            return ("invalidReturn",)
+        except BodyExc as e:
+            return ("bodyRaised", e.i)
+        except BaseException as e:  # noqa
+            return ("raised", type(e).__name__)
+
+    async def both() -> Any:
+        return await asyncio.gather(classify(args, kwargs), classify(args2, kwargs2))
+    solo1 = build.drive(classify(args, kwargs))
+    solo2 = build.drive(classify(args2, kwargs2))
+    if build.drive(classify(args, kwargs)) != solo1:
+        return []        # not even repeatable alone (a stateful callback): nothing to compare with
+    t1, t2 = build.drive(both())
+    if (t1, t2) != (solo1, solo2):
+        return [f"[C08] two calls in flight at the same time end as {t1} / {t2}; alone they end as {solo1} / {solo2}"]
+    return []
+
+
 def run_case(case: dict) -> Tuple[Optional[str], dict, List[str], Optional[dict]]:
     from koda_validate.signature import InvalidArgsError, InvalidReturnError
     ctx = wire.Ctx()
@@ -328,6 +375,15 @@ def run_case(case: dict) -> Tuple[Optional[str], dict, List[str], Optional[dict]
             import traceback
             traceback.print_exc()
     obs["ran"] = len(rec)
+    if case["async"] and case.get("legal") and case.get("legal2") and "args2" in case:
+        n_rec = len(rec)
+        try:
+            fails += concurrent_calls(ctx, case, wrapped, args, kwargs)
+        except RecursionError:
+            raise
+        except Exception:  # noqa
+            pass
+        del rec[n_rec:]      # (what the body recorded during those extra calls is not this call's)
     obs["delivered"] = None
     if rec and rec[0][0] == "raw":
         obs["delivered"] = {"args": [wire.canon_value(ctx, a) for a in rec[0][1]],
@@ -336,8 +392,10 @@ def run_case(case: dict) -> Tuple[Optional[str], dict, List[str], Optional[dict]
     if "raised" in obs["out"]:
         if obs["out"]["raised"] == "TypeError" and not case["legal"]:
             return None, obs, fails, None      # an illegal call: Python's own TypeError
-        if not rec:
-            fails.append(f"the decorated call raised {obs['out']['raised']} {obs['out'].get('msg', '')}")
+        # (whether or not the body had run: the only exceptions a decorated call may end in are InvalidArgsError,
+        # InvalidReturnError and the body's own)
+        fails.append(f"the decorated call raised {obs['out']['raised']} {obs['out'].get('msg', '')}"
+                     + (" after the body had run (while checking the return value)" if rec else ""))
         return None, obs, fails, None
     # which validator checks which supplied value (Python's binding rule, written out)
     pos = [p for p in case["params"] if p["kind"] in ("posOnly", "posOrKw")]
@@ -472,7 +530,7 @@ def shard(seed: int, shard_i: int, n: int, opts: dict) -> dict:
             # the return-value clause is stated by both properties
             if "[C08,C09]" not in f and (opts["pid"] == "C09") != ("[C09]" in f):
                 continue
-            failures.append({"property": opts["pid"], "case": c, "xd": {"args": c["args"], "kwargs": c["kwargs"]}, "what": f, "real": obs})
+            failures.append({"property": opts["pid"], "case": c, "xd": {"args": c["args"], "kwargs": c["kwargs"], "body_returns": c["body"].get("ret")}, "what": f, "real": obs})
         if req is not None:
             reqs.append(req)
             owners.append((c, obs))
